@@ -30,7 +30,7 @@ CHECKS = {
          "the histories reach (EI vs quadrature in log space, gradients vs two-step central differences). No coverage 'for all predictive "
          "means and variances' is claimed."),
    design_ref="DESIGN.md 3.8",
-   note="Trusted: quadrature reference for EI (|Z|<=30); finite differences only where two step sizes agree to 1e-4. multiprocessing.Pool is trip-wired (n_processes=1 only)."),
+   note="Trusted: quadrature reference for EI (|Z|<=30); finite differences only where two step sizes agree to 1e-4. multiprocessing.Pool is replaced by a synchronous pickling stand-in (n_processes in {1,2,3}); the pool carries no scheduling clause in C18."),
  "C01": dict(
    engine="E1 history refinement + E3 replica ensembles",
    technique="deterministic simulation: recorded RNG/posterior-call histories of seeded runs refined attempt by attempt against the Metropolis-Hastings rule (with tail-draw, edge-uniform, -inf moat and exchange faults); exact-null stationarity tests over seeded replica ensembles started from exact draws; long-run moment check",
@@ -70,7 +70,8 @@ CHECKS = {
          "every op; every chain returned by ChainPool.advance is bit-identical (state digest incl. generator positions) to a "
          "deep copy advanced serially; run_for never reads the clock more than 1000 times without an evaluation before its "
          "deadline, does not return before the budget is used up, overshoots by at most about one batch, for 0.2 ms to 10 min "
-         "per evaluation. An evaluation budget per operation turns a non-terminating step into a reported violation."),
+         "per evaluation; ParallelTempering.advance / run_for inside the process simulation (cycle arithmetic, progress watch); "
+         "histories include save/load. An evaluation budget per operation turns a non-terminating step into a reported violation."),
    design_ref="DESIGN.md 3.7",
    note="Trusted: SimPool implements Pool.map (pickled jobs/results, FIFO queue, results in input order); progress/overshoot thresholds as stated in the evidence assumptions. Known finding F3 (proposal width overflow on flat posteriors) is reported as KNOWN-FINDING."),
  "C03": dict(
